@@ -28,11 +28,6 @@ def specUrl (appUrl : Text) (p : List Seg) (vt : Option (List Seg)) (els : List 
 /-- the canonical header for a virtual root at `vt`: `/` + names joined by `/`, UTF-8, plus `k` trailing slashes -/
 def vrootHeader (vt : List Seg) (k : Nat) : Bytes := utf8Enc ('/' :: joinWith '/' vt) ++ List.replicate k 47
 
-/-- the name survives quoting unchanged (only unreserved and `PATH_SEGMENT_SAFE` ASCII characters) -/
-def NoQuoteNeeded (n : Seg) : Prop := ∀ c ∈ n, c.toNat < 128 ∧ (isUnreserved (UInt8.ofNat c.toNat) || pathSegmentSafe.contains (UInt8.ofNat c.toNat)) = true
-
-instance (n : Seg) : Decidable (NoQuoteNeeded n) := by unfold NoQuoteNeeded; infer_instance
-
 /-- what traversing back must give: that resource, empty view name, nothing left over -/
 def specBack (p vt : List Seg) : Result :=
   { context := p, viewName := [], subpath := [], traversed := p, virtualRoot := vt, virtualRootPath := vt }
